@@ -11,6 +11,7 @@ import (
 	"encoding/json"
 	"fmt"
 	"math/big"
+	"runtime"
 	"runtime/debug"
 	"runtime/metrics"
 	"sort"
@@ -164,6 +165,11 @@ func (a *Account) SaveKeyValue(key []byte, value []byte) error {
 	if err := a.sh.dep("trie-write"); err != nil {
 		return err
 	}
+	if a.sh.concurrent {
+		// a storage write is where a node's execution spends its time: yielding here lets reconfiguration land in the
+		// middle of an execution instead of between two executions
+		runtime.Gosched()
+	}
 	a.mu.Lock()
 	defer a.mu.Unlock()
 	a.sh.mutated()
@@ -297,8 +303,8 @@ func computeShard(addr []byte, n uint32) uint32 {
 	if len(addr) == 0 {
 		return 0
 	}
-	if vmcommon.IsSmartContractOnMetachain(addr[len(addr)-1:], addr) {
-		return vmcommon.MetachainShardId
+	if refIsSCOnMeta(addr[len(addr)-1:], addr) {
+		return refMetachainShard
 	}
 	return uint32(addr[len(addr)-1]) % n
 }
@@ -345,7 +351,7 @@ func (s *Shard) get(addr []byte) *Account {
 
 func (s *Shard) LoadAccount(addr []byte) (vmcommon.AccountHandler, error) {
 	kind := "load-account"
-	if bytes.Equal(addr, vmcommon.SystemAccountAddress) {
+	if bytes.Equal(addr, refSystemAccount) {
 		kind = "load-system-account"
 	}
 	if err := s.dep(kind); err != nil {
@@ -677,7 +683,7 @@ func (s *Shard) accountsFor(c *Call) (snd, dst vmcommon.UserAccountHandler) {
 	if computeShard(c.Caller, s.Cfg.NShards) == s.Cfg.Self {
 		snd = s.get(c.Caller)
 	}
-	if computeShard(c.Rcv, s.Cfg.NShards) == s.Cfg.Self || vmcommon.IsSystemAccountAddress(c.Rcv) {
+	if computeShard(c.Rcv, s.Cfg.NShards) == s.Cfg.Self || refIsSystemAccount(c.Rcv) {
 		dst = s.get(c.Rcv)
 	}
 	return
